@@ -648,6 +648,8 @@ def gen_model(d, mode='wf'):
         n = '...' if d.chance(1) else _dname(d)
         if n.lower() == 'returns' or n == 'Varargs' or n in names:
             n = 'p%d' % i
+            while n in names:       # a drawn name may itself be 'p<i>': duplicates are outside the documented grammar
+                n += '_'
         names.add(n)
         params.append({'name': n, 'anns': _build_anns('param', _picks(d), mode),
                        'desc': _desc_lines(d, False, 4)})
